@@ -97,7 +97,15 @@ def build_rust(log):
         lock = os.path.join(VERIF, "harness", "Cargo.lock")
         if not os.path.exists(lock):
             import shutil; shutil.copy(os.path.join(REPO, "Cargo.lock"), lock)
-        rc, out = sh(["cargo", "build", "--offline", "--manifest-path", os.path.join(VERIF, "harness", "Cargo.toml"),
+        manifest = os.path.join(VERIF, "harness", "Cargo.toml")
+        if REPO != "/repo":
+            # development sweeps over a scratch copy: the harness must link that copy's sfs-core, not /repo/core
+            alt = os.path.join(WORK, "harness-alt"); os.makedirs(alt, exist_ok=True)
+            open(os.path.join(alt, "Cargo.toml"), "w").write(open(manifest).read().replace('path = "/repo/core"', 'path = "%s/core"' % REPO))
+            import shutil; shutil.copy(lock, os.path.join(alt, "Cargo.lock"))
+            if not os.path.islink(os.path.join(alt, "src")): os.symlink(os.path.join(VERIF, "harness", "src"), os.path.join(alt, "src"))
+            manifest = os.path.join(alt, "Cargo.toml")
+        rc, out = sh(["cargo", "build", "--offline", "--manifest-path", manifest,
                       "--target-dir", os.path.join(WORK, "target-harness")], timeout=3600)
         log.append(out[-3000:])
         if rc != 0: problems.append("harness no longer builds against /repo/core (feature verif):\n" + out[-1500:])
